@@ -5,8 +5,9 @@
 # in the scratch copy (tools/try_patch.sh).  Writes meta.json.  /repo is never touched.
 set -u
 ID="$1"; V="$2"; FEAT="${3:-}"
-SRC="/tmp/wt-$ID/seeded/$V"
-DST="/verif/seeded/$ID-$V"
+SRC="/tmp/wt-$ID/${SRC_SUB:-seeded}/$V"
+TAG="${TAG:-}"
+DST="/verif/seeded/$ID-$TAG$V"
 [ -f "$SRC/patch.diff" ] || { echo "no deliverable at $SRC"; exit 2; }
 mkdir -p "$DST"
 cp "$SRC/patch.diff" "$DST/patch.diff"; cp "$SRC/demo.rs" "$DST/demo.rs"; cp "$SRC/NOTES.md" "$DST/NOTES.md" 2>/dev/null
@@ -18,7 +19,7 @@ caught="$(echo "$res" | grep -E '^== ' | awk '$4 ~ /exit=1/ {printf "%s ", $2}')
 caughtd="$(echo "$resd" | grep -E '^== ' | awk '$4 ~ /exit=1/ {printf "%s ", $2}')"
 errs="$(echo "$res$resd" | grep -E '^== ' | awk '$4 ~ /exit=2/ {printf "%s ", $2}')"
 own="$(echo "$res" | grep -E "^== $ID " | cut -c1-400)"
-python3 - "$ID" "$V" "$conf" "$caught" "$caughtd" "$errs" "$own" "$FEAT" <<'PY'
+python3 - "$ID" "$TAG$V" "$conf" "$caught" "$caughtd" "$errs" "$own" "$FEAT" <<'PY'
 import json,sys,os
 ID,V,conf,caught,caughtd,errs,own,feat=sys.argv[1:9]
 d=f"/verif/seeded/{ID}-{V}"
